@@ -539,7 +539,7 @@ class Execution:
                             "fail": step.get("fail", []), "intr": intr, "editrun": bool(step.get("editrun")), "tree": self.tree()})
         self.events.append({"e": "Loaded", "blog": [], "dlog": [], "warn": ""})
         if step.get("printer"):
-            self.events.append({"e": "Printer", "mode": "h2", "verbose": bool(step.get("verbose"))})
+            self.events.append({"e": "Printer", "mode": "h2", "verbose": bool(step.get("verbose")), "dry": bool(step.get("dry"))})
         req = os.path.join(self.ctl, "req")
         trace = os.path.join(self.ctl, "trace")
         for pth in (req, trace):
